@@ -210,7 +210,16 @@ class TraceGraph:
         if k in ("MCall", "Call"):
             c = callee_of(e)
             if e.get("trait") == "ir::item::IsOpaque" or c.endswith("IsOpaque>::is_opaque") or c.endswith("IsOpaque::is_opaque"):
-                return world.get("opaque")
+                # `Item::is_opaque` (also reached through ItemId / TypeId) is the user-visible notion: --opaque-type, the annotation,
+                # or a type bindgen cannot represent.  The impls for Type / CompInfo / TemplateInstantiation only know the last one.
+                op = world.get("opaque")
+                res = str(e.get("resolved") or c)
+                rt = (body.ty(e["recv"]) if e.get("k") == "MCall" else "") or ""
+                type_level = any(("<%s as" % t) in res or rt.replace("&", "") == t
+                                 for t in ("ir::ty::Type", "ir::comp::CompInfo", "ir::template::TemplateInstantiation"))
+                if op in (True, False, None):
+                    return op
+                return (op == "type") if type_level else True
             if c.endswith("Type::should_be_traced_unconditionally") and self.uncond is not None and world.get("kind"):
                 return world["kind"] in self.uncond
             return None
